@@ -12,6 +12,7 @@ open Litex
 structure UpCfg where
   ratio  : Nat   -- dw_to / dw_from
   nbFrom : Nat   -- byte lanes of the narrow (master) side
+  abits  : Nat   -- address width of the wide (slave) side
 deriving DecidableEq, Repr
 
 def UpCfg.nbTo (c : UpCfg) : Nat := c.ratio * c.nbFrom
@@ -33,12 +34,12 @@ def wrWord (s : UpState) (m : AxlM) : Nat := if m.awvalid then c.laneOf m.awaddr
 def rdWord (s : UpState) (m : AxlM) : Nat := if m.arvalid then c.laneOf m.araddr else s.rdWordR
 
 def toSlave (s : UpState) (m : AxlM) : AxlM :=
-  { awvalid := m.awvalid, awaddr := m.awaddr / c.nbTo * c.nbTo
+  { awvalid := m.awvalid, awaddr := m.awaddr / c.nbTo * c.nbTo % 2 ^ c.abits
     wvalid := m.wvalid
     wdata := m.wdata * 256 ^ (wrWord c s m * c.nbFrom)
     wstrb := m.wstrb * 2 ^ (wrWord c s m * c.nbFrom)
     bready := m.bready
-    arvalid := m.arvalid, araddr := m.araddr / c.nbTo * c.nbTo
+    arvalid := m.arvalid, araddr := m.araddr / c.nbTo * c.nbTo % 2 ^ c.abits
     rready := m.rready }
 
 def toMaster (s : UpState) (m : AxlM) (r : AxlS) : AxlS :=
